@@ -2971,7 +2971,8 @@ template< size_t L>
    size_t FixedString< L>::find( const FixedString& str, size_t pos) const
       noexcept
 {
-   if ((pos + str.mLength > mLength) || (mLength == 0) || (str.mLength == 0))
+   if ((str.mLength > mLength) || (pos > mLength - str.mLength)
+       || (mLength == 0) || (str.mLength == 0))
       return std::string::npos;
    for (size_t idx = pos; idx <= (mLength - str.length()); ++idx)
    {
@@ -2986,7 +2987,8 @@ template< size_t L>
    size_t FixedString< L>::find( const std::string& str, size_t pos) const
       noexcept
 {
-   if ((pos + str.length() > mLength) || (mLength == 0) || str.empty())
+   if ((str.length() > mLength) || (pos > mLength - str.length())
+       || (mLength == 0) || str.empty())
       return std::string::npos;
    for (size_t idx = pos; idx <= (mLength - str.length()); ++idx)
    {
@@ -3001,8 +3003,8 @@ template< size_t L>
    size_t FixedString< L>::find( const char* str, size_t pos, size_t count)
       const noexcept
 {
-   if ((pos + count > mLength) || (mLength == 0) || (count == 0)
-       || (str == nullptr))
+   if ((count > mLength) || (pos > mLength - count) || (mLength == 0)
+       || (count == 0) || (str == nullptr))
       return std::string::npos;
    for (size_t idx = pos; idx <= (mLength - count); ++idx)
    {
